@@ -127,6 +127,7 @@ func init() {
 		c.Clauses = append(c.Clauses, "C04.sample: the scalar uniform sampler stores a 23-bit candidate equal to q-1 and does not store one equal to q (boundary of the rejection test, decided by constant propagation)")
 		for _, pk := range []string{"sign/dilithium/mode2", "sign/dilithium/mode3", "sign/dilithium/mode5", "sign/mldsa/mldsa44", "sign/mldsa/mldsa65", "sign/mldsa/mldsa87"} {
 			c04ExpandA(c, p, pk+"/internal")
+			c04HintOffsets(c, p, pk+"/internal")
 			f := p.Func(pk+"/internal", "", "PolyDeriveUniform")
 			// the sampling loop is a closure over p, i and buf
 			outer := f
@@ -420,5 +421,60 @@ func c04ExpandA(c *Ctx, p *Program, ip string) {
 		c.bad("C04.sample", construct, strings.Join(bad, "; "), p.fnPos(f))
 	default:
 		c.ok("C04.sample", construct, fmt.Sprintf("%d (element, nonce) pairs", n), p.fnPos(f))
+	}
+}
+
+// c04HintOffsets: sigEncode writes the hint section at fixed offsets (indices from 0, switch-over points at
+// omega .. omega+k-1) of the slice it is handed, which SignTo passes open-ended: no position may be computed
+// from the length of that slice (a longer caller buffer would move the section out of the signature).
+func c04HintOffsets(c *Ctx, p *Program, ip string) {
+	f := p.Func(ip, "VecK", "PackHint")
+	construct := "(*" + ip + ".VecK).PackHint: the positions written do not depend on the length of the buffer handed in"
+	if f == nil {
+		c.undecided("C04.strict", construct, "anchor function does not resolve", "")
+		return
+	}
+	bi := paramIdx(f, "buf")
+	if bi < 0 {
+		c.undecided("C04.strict", construct, "parameter buf does not exist", p.fnPos(f))
+		return
+	}
+	d := p.Dep().analyse(f)
+	lbl := "len:param:" + f.Params[bi].Name()
+	n := 0
+	var bad []string
+	for _, b := range f.Blocks {
+		for _, in := range b.Instrs {
+			var idx []ssa.Value
+			switch x := in.(type) {
+			case *ssa.IndexAddr:
+				if addrRoot(x.X) == ssa.Value(f.Params[bi]) {
+					idx = append(idx, x.Index)
+				}
+			case *ssa.Slice:
+				if addrRoot(x.X) == ssa.Value(f.Params[bi]) {
+					if x.Low != nil {
+						idx = append(idx, x.Low)
+					}
+					if x.High != nil {
+						idx = append(idx, x.High)
+					}
+				}
+			}
+			for _, v := range idx {
+				n++
+				if d.hasLabel(d.fullDep(v), lbl) {
+					bad = append(bad, fmt.Sprintf("%s: %s", p.pos(in.Pos()), descVal(v)))
+				}
+			}
+		}
+	}
+	switch {
+	case n == 0:
+		c.undecided("C04.strict", construct, "no indexed access to the buffer found", p.fnPos(f))
+	case len(bad) > 0:
+		c.bad("C04.strict", construct, "position computed from len(buf): "+strings.Join(uniq(bad), "; "), p.fnPos(f))
+	default:
+		c.ok("C04.strict", construct, fmt.Sprintf("%d positions, none depends on len(buf)", n), p.fnPos(f))
 	}
 }
